@@ -698,16 +698,6 @@ theorem fixedZone_kinds (n : Option Token) (k : Int) : ErrIn OnlyOE (fixedZone n
   · exact errIn_ok _
   · intro e h; injection h with h; exact h.symm
 
-/-- **"TZ-string values are valid"**: every TZ-string value of `tzinfos` (an entry, or the callable's answer for other
-    names) is one `tz.tzstr` accepts (C08's model `TzStr.tzstr` returns a zone for it).  A malformed one makes
-    `tz.tzstr(tzdata)` raise a plain `ValueError` inside `_build_tzaware`, which `parse()` does not wrap
-    (known finding D-C14-tzinfos-bad-tzstring). -/
-def TzInfos.StringsValid : TzInfos → Prop
-  | .absent => True
-  | .mapping es => ∀ p ∈ es, ∀ s, p.2 = TzData.str s → tzstrCtor s = .ok ()
-  | .callable es d => (∀ p ∈ es, ∀ s, p.2 = TzData.str s → tzstrCtor s = .ok ()) ∧
-      ∀ s, d = .data (.str s) → tzstrCtor s = .ok ()
-
 /-- the value `_build_tzinfo` looks at -/
 def selectData (tzi : TzInfos) (tzname : Option Token) (tzoffset : Option Int) : TzData :=
   match tzi with
@@ -747,31 +737,70 @@ theorem selectData_not_bad (tzi : TzInfos) (h : tzi.NoBad) (n : Option Token) (o
       | data d' => simp only at hbad; exact h.2 (by rw [hbad])
       | echoOffset => cases off <;> simp at hbad
 
-theorem selectData_str_ok (tzi : TzInfos) (h : tzi.StringsValid) (n : Option Token) (off : Option Int) (s : Token)
-    (hs : selectData tzi n off = .str s) : tzstrCtor s = .ok () := by
-  unfold selectData at hs
-  cases tzi with
-  | absent => simp at hs
-  | mapping es =>
-    simp only at hs
-    cases hl : lookupKey es n with
-    | none => simp [hl] at hs
-    | some d =>
-      simp only [hl, Option.getD_some] at hs
-      obtain ⟨p, hp, hv⟩ := lookupKey_mem _ _ _ hl
-      exact h p hp s (hv.trans hs)
-  | callable es d =>
-    simp only at hs
-    cases hl : lookupKey es n with
-    | some d' =>
-      simp only [hl] at hs
-      obtain ⟨p, hp, hv⟩ := lookupKey_mem _ _ _ hl
-      exact h.1 p hp s (hv.trans hs)
-    | none =>
-      simp only [hl] at hs
-      cases d with
-      | data d' => simp only at hs; exact h.2 s (by rw [hs])
-      | echoOffset => cases off <;> simp at hs
+/-! ### `tz.tzstr` (C08's model) raises only ValueError or OverflowError -/
+section TzStrKinds
+open TzStr
+
+theorem tzParseTokens_ok (l : Array String) : ∃ r, TzStr.parseTokens l = .ok r := by
+  unfold TzStr.parseTokens
+  repeat' (first | exact ⟨_, rfl⟩ | split | (dsimp only; done) | (dsimp only; split))
+
+theorem go_kinds : ∀ (ys : List Int) (yday k prev : Int) (e : PyErr), ydayToMonthDay.go yday ys k prev = .error e → e = .ValueError := by
+  intro ys
+  induction ys with
+  | nil => intro yday k prev e h; simp [ydayToMonthDay.go] at h; exact h.symm
+  | cons y ys ih =>
+    intro yday k prev e h
+    simp only [ydayToMonthDay.go] at h
+    split at h
+    · simp at h
+    · exact ih _ _ _ _ h
+
+theorem delta_kinds (x : Attr) (isend : Bool) (a b : Int) (e : PyErr) (h : delta x isend a b = .error e) : e = .ValueError := by
+  unfold delta at h
+  simp only [bind, Except.bind] at h
+  repeat' split at h
+  all_goals first
+    | (simp at h; done)
+    | (rename_i hh; simp only [ydayToMonthDay] at hh; injection h with h; subst h; exact go_kinds _ _ _ _ _ hh)
+    | skip
+
+theorem tdCheck_kinds (x : Int) (e : PyErr) (h : tdCheck x = .error e) : e = .OverflowError := by
+  unfold tdCheck at h; split at h
+  · injection h with h; exact h.symm
+  · simp at h
+
+theorem tzstr_kinds (s : String) (posix : Bool) (e : PyErr) (h : tzstr s posix = .error e) : VEorOE e := by
+  unfold tzstr at h
+  obtain ⟨r, hr⟩ := tzParseTokens_ok (tokens s).toArray
+  simp only [TzStr.parse, hr, bind, Except.bind] at h
+  cases r with
+  | none => simp at h; exact Or.inl h.symm
+  | some res =>
+    simp only at h
+    split at h
+    · simp at h; exact Or.inl h.symm
+    · repeat' split at h
+      all_goals first
+        | (simp at h; done)
+        | (injection h with h; subst h; rename_i hh; first | exact Or.inr (tdCheck_kinds _ _ hh) | exact Or.inl (delta_kinds _ _ _ _ _ hh))
+        | (injection h with h; subst h; rename_i hh; repeat' split at hh
+           all_goals first
+             | (simp [pure, Except.pure] at hh; done)
+             | (injection hh with hh; subst hh; rename_i h3; exact Or.inr (tdCheck_kinds _ _ h3)))
+
+end TzStrKinds
+
+theorem tzstrCtor_kinds (s : Token) : ErrIn VEorOE (tzstrCtor s) := by
+  intro e h
+  unfold tzstrCtor at h
+  cases hz : TzStr.tzstr (String.ofList s) false with
+  | ok z => simp [hz] at h
+  | error e' =>
+    simp only [hz] at h
+    injection h with h
+    subst h
+    exact tzstr_kinds _ _ _ hz
 
 theorem buildTzinfo_eq (tzi : TzInfos) (n : Option Token) (off : Option Int) :
     buildTzinfo tzi n off =
@@ -780,36 +809,45 @@ theorem buildTzinfo_eq (tzi : TzInfos) (n : Option Token) (off : Option Int) :
        | .noneVal => pure (.viaTzinfos .noneVal n)
        | .str s => do tzstrCtor s; pure (.viaTzinfos (.str s) n)
        | .int k => fixedZone n k
-       | .bad => throw .TypeError) := by
+       | .bad => throw .TypeError
+       | .raises => throw .ValueError) := by
   unfold buildTzinfo selectData
   rfl
 
-theorem buildTzinfo_kinds (tzi : TzInfos) (h : tzi.NoBad) (hs : tzi.StringsValid) (n : Option Token) (off : Option Int) :
-    ErrIn OnlyOE (buildTzinfo tzi n off) := by
+/-- `_build_tzinfo` raises only ValueError (a malformed TZ string, a raising callable) or OverflowError — given values of the
+    documented kinds (`NoBad`); no hypothesis on the TZ strings -/
+theorem buildTzinfo_kinds (tzi : TzInfos) (h : tzi.NoBad) (n : Option Token) (off : Option Int) :
+    ErrIn VEorOE (buildTzinfo tzi n off) := by
   rw [buildTzinfo_eq]
   have hb := selectData_not_bad tzi h n off
-  have hv := selectData_str_ok tzi hs n off
   cases hd : selectData tzi n off with
   | obj k => exact errIn_ok _
   | noneVal => exact errIn_ok _
   | str s =>
-    have := hv s hd
-    simp only [this, bind, Except.bind, pure, Except.pure]
-    exact errIn_ok _
-  | int k => exact fixedZone_kinds _ _
+    intro e he
+    simp only [bind, Except.bind, pure, Except.pure] at he
+    cases hc : tzstrCtor s with
+    | ok u => simp [hc] at he
+    | error e' =>
+      simp only [hc] at he
+      injection he with he
+      subst he
+      exact tzstrCtor_kinds s _ hc
+  | int k => intro e he; exact Or.inr (fixedZone_kinds _ _ e he)
   | bad => exact absurd hd hb
+  | raises => intro e he; injection he with he; exact Or.inl he.symm
 
-theorem buildTzaware_kinds (tznames : List Token) (tzi : TzInfos) (h : tzi.NoBad) (hs : tzi.StringsValid) (res : Res) :
-    ErrIn OnlyOE (buildTzaware tznames tzi res) := by
+theorem buildTzaware_kinds (tznames : List Token) (tzi : TzInfos) (h : tzi.NoBad) (res : Res) :
+    ErrIn VEorOE (buildTzaware tznames tzi res) := by
   unfold buildTzaware
   split
-  · exact buildTzinfo_kinds tzi h hs _ _
+  · exact buildTzinfo_kinds tzi h _ _
   · split
     · exact errIn_ok _
     · split
       · exact errIn_ok _
       · split
-        · exact fixedZone_kinds _ _
+        · intro e he; exact Or.inr (fixedZone_kinds _ _ e he)
         · split <;> exact errIn_ok _
 
 end PM
